@@ -410,6 +410,8 @@ func genCase(r *c.Rng, mode string) *Case {
 		return genACME(r)
 	case "api":
 		return genAPI(r)
+	case "conv":
+		return genConv(r)
 	}
 	switch r.Intn(10) {
 	case 0:
@@ -435,6 +437,8 @@ func corner(mode string) []*Case {
 		return cornerACME()
 	case "api":
 		return cornerAPI()
+	case "conv":
+		return cornerConv()
 	}
 	var out []*Case
 	// D6: vb − va = 18446744374 s under max 24 h is accepted (user cert, default claims, backdate 1 m)
